@@ -41,7 +41,10 @@ func NewIOReader(reader io.Reader) ro.Observable[[]byte] {
 				}
 				break
 			}
-			destination.NextWithContext(ctx, buf[:n])
+			// Emit a copy: `buf` is reused by the next Read and the observer may keep the chunk.
+			chunk := make([]byte, n)
+			copy(chunk, buf[:n])
+			destination.NextWithContext(ctx, chunk)
 		}
 
 		return func() {
